@@ -1,12 +1,240 @@
+/-
+C15 — the observe mini-language means what its grammar and tables say.
+ONLY the property theorems (+ non-vacuity examples); every `theorem` here is a
+proof obligation audited with `#print axioms`.  Definitions and helper lemmas:
+Model/Dsl*.lean, Lemmas/Dsl*.lean.
+
+`uw : Char → Bool` is Python's `\w` table on non-ASCII characters (a parameter:
+every theorem holds for every table).  Texts are `List Char`.
+-/
 import TraitsVerif.Model.DslGrammar
 import TraitsVerif.Model.DslDenote
 import TraitsVerif.Generated.Grammar
+import TraitsVerif.Lemmas.DslLex
+import TraitsVerif.Lemmas.DslParse
+import TraitsVerif.Lemmas.DslCompile
 namespace TraitsVerif.Props.C15
 open TraitsVerif TraitsVerif.Model.Dsl
 
+/-! ## the grammar file is the grammar that is modelled -/
+
+/-- The rules, terminals, imports and `%ignore` read from the working tree's
+`_dsl_grammar.lark` are the ones written down in Model/DslGrammar.lean (and
+transcribed as `Cst`/`shape`, DslSyntax.lean).  A change to the .lark file
+changes `Generated.grammarRules` and this stops checking. -/
 theorem C15_grammar_is_modelled :
     Generated.grammarRules = grammar ∧ Generated.grammarTerminals = grammarTerminals ∧
     Generated.grammarImports = grammarImports ∧ Generated.grammarIgnore = grammarIgnore := by
   decide
+
+/-! ## acceptance: exactly the renderings of derivation trees -/
+
+/-- Every rendering — any blanks before, between and after the tokens, any
+redundant brackets (they are `group` nodes of the tree) — of every derivation
+tree lexes and parses back to that tree.  Unbounded depth and length. -/
+theorem C15_parse_render (uw : Char → Bool) (c : Cst) (s : List Char)
+    (hg : grammatical uw c = true) (hs : IsRendering c s) :
+    parseChars uw s = some c := by
+  simp only [grammatical, Bool.and_eq_true] at hg
+  simp [parseChars, lex_rendering uw c s hg.2 hs, parseToks_toks c hg.1]
+
+/-- Whatever the parser accepts is a rendering of the derivation tree it
+returns: nothing outside the grammar is accepted. -/
+theorem C15_parse_sound (uw : Char → Bool) (s : List Char) (c : Cst)
+    (h : parseChars uw s = some c) :
+    grammatical uw c = true ∧ IsRendering c s := by
+  simp only [parseChars, Option.bind_eq_some_iff] at h
+  obtain ⟨ts, hl, hp⟩ := h
+  obtain ⟨ht, hsh⟩ := parseToks_sound ts c hp
+  obtain ⟨d, trail, hd, hws, htr, hs, hn⟩ := lex_sound uw s ts hl
+  have := tokNames_toks uw c []
+  simp only [List.append_nil, ht, hn, tokNames, Bool.and_true] at this
+  exact ⟨by simp [grammatical, hsh, ← this], d, trail, by rw [hd, ht], hws, htr, hs⟩
+
+/-- Acceptance is decided by the tree alone: a text is accepted iff it is a
+rendering of some derivation tree (and then that tree is the result). -/
+theorem C15_accepts_iff_rendering (uw : Char → Bool) (s : List Char) (c : Cst) :
+    parseChars uw s = some c ↔ (grammatical uw c = true ∧ IsRendering c s) :=
+  ⟨C15_parse_sound uw s c, fun h => C15_parse_render uw c s h.1 h.2⟩
+
+/-- `*` is only accepted in a terminal position: in an accepted text no `*`
+lies in the left operand of a `.`/`:` (nor, by the grammar file's
+`"[" parallel "]"`, inside brackets). -/
+theorem C15_star_terminal_only (uw : Char → Bool) (s : List Char) (c : Cst)
+    (h : parseChars uw s = some c) : starOk c = true := by
+  have hg := (C15_parse_sound uw s c h).1
+  simp only [grammatical, Bool.and_eq_true] at hg
+  obtain ⟨k, hk⟩ := Option.isSome_iff_exists.mp hg.1
+  exact (shape_star c k hk).2
+
+/-- the negative examples of the manual and of test_parsing are rejected -/
+example : parseChars (fun _ => false) "*.name".toList = none := by decide
+example : parseChars (fun _ => false) "[a, *].name".toList = none := by decide
+example : parseChars (fun _ => false) "[a.*,b].c".toList = none := by decide
+example : parseChars (fun _ => false) "a b".toList = none := by decide
+/-- … and the positive ones accepted -/
+example : parseChars (fun _ => false) "a:*,b".toList =
+    some (.par (.ser (.trait ['a']) .quiet .any) (.trait ['b'])) := by decide
+example : parseChars (fun _ => false) " [ a ,b ] . items :\t+m ".toList =
+    some (.ser (.ser (.group (.par (.trait ['a']) (.trait ['b']))) .notify .items) .quiet
+      (.metadata ['m'])) := by decide
+
+/-- F17 (known finding): the manual permits `"[a.*, b.c]"`, the grammar file does not. -/
+theorem C15_star_in_brackets_rejected :
+    parseChars (fun _ => false) "[a.*, b.c]".toList = none ∧
+    parseChars (fun _ => false) "[*]".toList = none := by decide
+
+/-! ## meaning -/
+
+/-- The root-to-leaf node sequences of the compiled graphs are exactly the
+documented paths (`paths`, DslDenote.lean, written from the user manual): same
+steps, same notify and optional flags, same order. -/
+theorem C15_meaning (c : Cst) (gs : Forest) (h : compileExpr (toExpr c true) = .ok gs) :
+    gs.paths = paths c := by
+  have := create_ok _ _ _ h
+  subst this
+  rw [paths_createU]
+  have := exprWords_toExpr c none
+  simp only [notifies] at this
+  rw [this]
+  simp [paths, Forest.tails, crossO_nilpath]
+
+/-- A step notifies iff it is the last of its path or is followed by `.`
+(through any brackets): the compiled paths are the words of the expression,
+each atom flagged by the connector that follows it; in a word exactly the last
+atom has no follower; the flag is "not followed by `:`". -/
+theorem C15_notify_law (c : Cst) (gs : Forest) (h : compileExpr (toExpr c true) = .ok gs) :
+    gs.paths = (lin c none).map (·.map flag) ∧
+    (∀ w ∈ lin c none, ∃ (init : Word) (a : Atom),
+        w = init ++ [(a, none)] ∧ ∀ x ∈ init, ∃ cn, x.2 = some cn) ∧
+    (∀ (a : Atom) (f : Option Conn), (flag (a, f)).notifyFlag = decide (f ≠ some .quiet)) :=
+  ⟨C15_meaning c gs h, lin_wordOk c none, flag_notify⟩
+
+/-- the notify argument handed down by `_handle_series` is the law, at every
+depth: compiling a sub-tree with `notify = (its follower is not ':')` gives its
+words flagged by followers. -/
+theorem C15_notify_propagation (c : Cst) (f : Option Conn) :
+    exprWords (toExpr c (notifies f)) = (lin c f).map (·.map flag) :=
+  exprWords_toExpr c f
+
+/-- `items` stands for four alternatives — a trait named "items", dict items,
+list items, set items — all optional, all with the notify flag of the position. -/
+theorem C15_items (notify : Bool) (br : Forest) (h : br.unique = true) :
+    create (toExpr .items notify) br =
+      .ok (.cons (.named itemsKw notify true) br
+          (.cons (.dictItems notify true) br
+          (.cons (.listItems notify true) br
+          (.cons (.setItems notify true) br .nil)))) ∧
+    (∀ f, lin .items f =
+      [[(.itemsTrait, f)], [(.dictItems, f)], [(.listItems, f)], [(.setItems, f)]]) ∧
+    (∀ a f, (flag (a, f)).optionalFlag =
+      (a == .itemsTrait || a == .dictItems || a == .listItems || a == .setItems)) := by
+  refine ⟨?_, fun _ => rfl, flag_optional⟩
+  simp [toExpr, itemsExpr, create, h]
+
+example : (compileChars (fun _ => false) "c:items.v".toList).map Forest.paths = .ok
+    [[.named ['c'] false false, .named itemsKw true true, .named ['v'] true false],
+     [.named ['c'] false false, .dictItems true true, .named ['v'] true false],
+     [.named ['c'] false false, .listItems true true, .named ['v'] true false],
+     [.named ['c'] false false, .setItems true true, .named ['v'] true false]] := by decide
+
+/-! ## spellings -/
+
+/-- Trees equal up to redundant brackets and re-association of `.`/`:` chains
+and `,` lists compile to the same result (the same list of graphs, or the same
+error) — below any branches, with any notify flag. -/
+theorem C15_spelling_invariant {a b : Cst} (h : Cst.Equiv a b) :
+    compileExpr (toExpr a true) = compileExpr (toExpr b true) :=
+  create_equiv h true .nil
+
+/-- … hence for texts: renderings (any blanks) of equivalent derivation trees
+compile to equal graph lists, so removal by text matches registration by text. -/
+theorem C15_spelling_invariant_text (uw : Char → Bool) {a b : Cst} (s₁ s₂ : List Char)
+    (ha : grammatical uw a = true) (hb : grammatical uw b = true)
+    (h₁ : IsRendering a s₁) (h₂ : IsRendering b s₂) (h : Cst.Equiv a b) :
+    compileChars uw s₁ = compileChars uw s₂ := by
+  simp [compileChars, C15_parse_render uw a s₁ ha h₁, C15_parse_render uw b s₂ hb h₂,
+    C15_spelling_invariant h]
+
+/-- Blanks and brackets that do not change the Lark tree (`?element` is inlined)
+do not even change the ObserverExpression. -/
+theorem C15_brackets_same_expression (p : Cst) (notify : Bool) :
+    toExpr (.group p) notify = toExpr p notify := rfl
+
+/-- parsing is a function of the text: two parses of one text are equal
+(the caches of `parse`/`compile_str` are checked for mutation by the harness). -/
+theorem C15_parse_deterministic (uw : Char → Bool) (s : List Char) (c₁ c₂ : Cst)
+    (h₁ : parseChars uw s = some c₁) (h₂ : parseChars uw s = some c₂) : c₁ = c₂ := by
+  rw [h₁] at h₂; exact Option.some.inj h₂
+
+example : Cst.Equiv (.ser (.group (.ser (.trait ['a']) .quiet (.trait ['b']))) .notify (.trait ['c']))
+    (.ser (.trait ['a']) .quiet (.group (.ser (.trait ['b']) .notify (.trait ['c'])))) :=
+  .trans (.ser _ (.unbracket _) (.refl _))
+    (.trans (.serAssoc _ _ _ _ _) (.ser _ (.refl _) (.symm (.unbracket _))))
+
+/-! ## "every grammar string compiles" — false as it stands (F8) -/
+
+/-- The full-strength acceptance claim of the property statement. -/
+def C15_accepts_all : Prop :=
+  ∀ (uw : Char → Bool) (c : Cst), grammatical uw c = true →
+    ∃ gs, compileExpr (toExpr c true) = .ok gs
+
+/-- No node of the (unchecked) compiled graphs has two equal children: no two
+parallel branches below a series compile to equal graphs. -/
+def NoDupBranches (c : Cst) : Prop := (createU (toExpr c true) .nil).wf = true
+
+/-- `compile_expr` raises (ValueError, "Not all children are unique") exactly
+when the graphs it would build have a node with two equal children. -/
+theorem C15_compile_iff_unique (e : Expr) :
+    compileExpr e = if (createU e .nil).wf then .ok (createU e .nil) else .error .valueError :=
+  create_eq e .nil rfl
+
+/-- Every grammar string without duplicate parallel branches below a series
+compiles, and denotes the documented paths. -/
+theorem C15_accepts_all_partial (uw : Char → Bool) (c : Cst) (s : List Char)
+    (hg : grammatical uw c = true) (hs : IsRendering c s) (hd : NoDupBranches c) :
+    ∃ gs, compileChars uw s = .ok gs ∧ gs.paths = paths c := by
+  have hc : compileExpr (toExpr c true) = .ok (createU (toExpr c true) .nil) := by
+    rw [C15_compile_iff_unique, hd]; rfl
+  exact ⟨_, by simp [compileChars, C15_parse_render uw c s hg hs, hc], C15_meaning c _ hc⟩
+
+/-- … and the hypothesis is necessary. -/
+theorem C15_accepts_all_partial_conv (c : Cst) (gs : Forest)
+    (h : compileExpr (toExpr c true) = .ok gs) : NoDupBranches c := by
+  rw [C15_compile_iff_unique] at h
+  by_cases hw : (createU (toExpr c true) .nil).wf = true
+  · exact hw
+  · simp [hw] at h
+
+/-- the tree of `x.[a,a]` -/
+def dupWitness : Cst :=
+  .ser (.trait ['x']) .notify (.group (.par (.trait ['a']) (.trait ['a'])))
+
+/-- Negation witness (replayed on the implementation by the corpus of c15.py):
+`x.[a,a]` is generated by the grammar, is parsed, and is rejected by compilation. -/
+theorem C15_dup_rejected :
+    grammatical (fun _ => false) dupWitness = true ∧
+    parseChars (fun _ => false) "x.[a,a]".toList = some dupWitness ∧
+    compileExpr (toExpr dupWitness true) = .error .valueError ∧
+    compileChars (fun _ => false) "x.[a.b,a.b]".toList = .error .valueError ∧
+    compileChars (fun _ => false) "x.[items, items]".toList = .error .valueError ∧
+    compileChars (fun _ => false) "x.[a.[b,c],a.[c,b]]".toList = .error .valueError := by
+  decide
+
+theorem C15_accepts_all_fails : ¬ C15_accepts_all := by
+  intro h
+  obtain ⟨gs, hgs⟩ := h (fun _ => false) dupWitness (by decide)
+  have := C15_dup_rejected.2.2.1
+  rw [this] at hgs
+  cases hgs
+
+/-- the hypothesis of `C15_accepts_all_partial` is satisfiable on a non-trivial tree:
+`foo:[bar,baz].items` -/
+example : NoDupBranches (.ser (.ser (.trait ['f']) .quiet
+    (.group (.par (.trait ['b', 'a', 'r']) (.trait ['b', 'a', 'z'])))) .notify .items) := by
+  unfold NoDupBranches; decide
+/-- duplicates that are not below a series are accepted (`a,a`, `[a,a].b`) -/
+example : NoDupBranches (.par (.trait ['a']) (.trait ['a'])) := by unfold NoDupBranches; decide
+example : (compileChars (fun _ => false) "[a,a].b".toList).isOk = true := by decide
 
 end TraitsVerif.Props.C15
